@@ -81,12 +81,19 @@ class StubDB:
                 self.reserved.remove(t)
 
 
+class AddressFault(Exception):
+    """Injected failure of the change-address lookup (a database error after the inputs were reserved)."""
+
+
 class StubChain:
     def __init__(self):
         self.asked = 0
+        self.may_fail = False
 
     async def get_or_create_usable_address(self):
         self.asked += 1
+        if self.may_fail and VM_REF[0].new_bool('change_address_lookup_fails'):
+            raise AddressFault()
         return CHANGE_ADDRESS
 
 
@@ -135,7 +142,7 @@ def make_utxo(i, amount, height):
 ACCUMULATING = (None, 'standard', 'prefer_confirmed')
 
 
-def run(vm, k, strategy, with_claim, preset, sym_rate, mask=None):
+def run(vm, k, strategy, with_claim, preset, sym_rate, mask=None, faults=False):
     VM_REF[0] = vm
     ledger = StubLedger()
     ledger.coin_selection_strategy = strategy
@@ -149,6 +156,7 @@ def run(vm, k, strategy, with_claim, preset, sym_rate, mask=None):
         heights = [1 if (mask >> i) & 1 else 0 for i in range(k)]      # confirmed / unconfirmed pattern of this job
     utxos = [make_utxo(i, a, h) for i, (a, h) in enumerate(zip(amounts, heights))]
     account = StubAccount(ledger, utxos)
+    account.change.may_fail = faults
     outputs = []
     pay = vm.new_int('pay', 0, 21 * 10 ** 16)
     outputs.append(Output.pay_pubkey_hash(pay, b'\x07' * 20))
@@ -178,6 +186,10 @@ def run(vm, k, strategy, with_claim, preset, sym_rate, mask=None):
         if strategy in ACCUMULATING + ('only_confirmed',) and have + usable >= cost:
             return 'VIOLATION: refused although spendable outputs worth more than their fee cover the cost'
         return 'ok-insufficient'
+    except AddressFault:
+        if ledger.db.reserved:
+            return 'VIOLATION: outputs stay reserved after a failure that followed the funding step'
+        return 'ok-fault-released'
     except Exception as e:
         return 'VIOLATION: transaction building failed with %s instead of an insufficient-funds error' % type(e).__name__
     # ---- success obligations
@@ -338,6 +350,12 @@ def jobs(tier):
                         args=(1 if tier == 'quick' else 2, strat, False, False, True), loop_bound=200, max_depth=60, cost=100,
                         bounds=dict(utxos=1 if tier == 'quick' else 2, strategy=sname, outputs='1 payment',
                                     fee_per_byte='0..10000 symbolic')))
+    for k in ((1, 2) if tier == 'quick' else (1, 2, 3)):
+        out.append(dict(name=f'fund-default-{k}utxo-faults', family='fund', fn='run', args=(k, None, False, False, False, None, True),
+                        loop_bound=200, max_depth=60, cost=8 ** k * 2,
+                        bounds=dict(utxos=k, strategy='default', outputs='1 payment', fee_per_byte=50,
+                                    faults='the change-address lookup may fail after the inputs were reserved'),
+                        must_reach=('ok-fault-released',)))
     for k in ((0, 1) if tier == 'quick' else (0, 1, 2)):
         out.append(dict(name=f'no-outputs-{k}utxo', family='no-outputs', fn='no_outputs', args=(k, None), loop_bound=200,
                         max_depth=60, cost=8 ** k, bounds=dict(utxos=k, preset_inputs=1, outputs=0)))
